@@ -277,7 +277,13 @@ impl<L: Language> Matcher<L> for Pattern<L> {
 
   fn potential_kinds(&self) -> Option<bit_set::BitSet> {
     let kind = match self.node {
-      PatternNode::Terminal { kind_id, .. } => kind_id,
+      PatternNode::Terminal { kind_id, .. } => {
+        if kind_utils::is_error_kind(kind_id) {
+          // error can match any kind
+          return None;
+        }
+        kind_id
+      }
       PatternNode::MetaVar { .. } => self.root_kind?,
       PatternNode::Internal { kind_id, .. } => {
         if kind_utils::is_error_kind(kind_id) {
